@@ -300,6 +300,12 @@ func c13Exec(c *fw.Ctx, be string, nmsgs int, seq []int, checkAll bool) (key str
 								want = append(want, fmt.Sprintf("%d %s\r\n", i+1, val(m)))
 							}
 						}
+						// when the status line states a count it must agree with the listing (and so
+						// with STAT)
+						var stated int
+						if _, err := fmt.Sscanf(r.Status, "+OK Listing %d messages", &stated); err == nil && stated != len(want) {
+							fail(strings.ToLower(cmd)+"|count-disagrees", fmt.Sprintf("%s announces %q but %d messages are unmarked (STAT/LIST/UIDL must agree)", cmd, strings.TrimSpace(r.Status), len(want)))
+						}
 						if strings.Join(r.Body, "") != strings.Join(want, "") {
 							fail(strings.ToLower(cmd)+"|listing-wrong", fmt.Sprintf("%s lists %q, want %q (login-time numbers, unmarked only)", cmd, r.Body, want))
 						}
@@ -386,6 +392,39 @@ func c13Exec(c *fw.Ctx, be string, nmsgs int, seq []int, checkAll bool) (key str
 				break
 			}
 		}
+		// Probe: in TRANSACTION state STAT, LIST and UIDL must agree with the model and with each
+		// other after EVERY sequence; their raw answers are also part of the state key, so that
+		// implementation-hidden session state that shows in them is not merged away.
+		probe := ""
+		if inTxn && !ended && extend {
+			n, sz := unmarkedStat()
+			for _, pc := range []string{"STAT", "LIST", "UIDL"} {
+				if err := k.Send(pc); err != nil {
+					break
+				}
+				r := c13Read(k, pc != "STAT")
+				probe += r.Status + strings.Join(r.Body, "")
+				if !r.Well || !r.OK {
+					fail("probe|"+strings.ToLower(pc)+"|malformed", fmt.Sprintf("%s after the sequence: %s %s", pc, r.Status, r.Why))
+					break
+				}
+				switch pc {
+				case "STAT":
+					if want := fmt.Sprintf("+OK %d %d\r\n", n, sz); r.Status != want {
+						fail("probe|stat|wrong", fmt.Sprintf("STAT after the sequence answered %q, want %q", r.Status, want))
+					}
+				default:
+					var stated int
+					if _, err := fmt.Sscanf(r.Status, "+OK Listing %d messages", &stated); err == nil && stated != n {
+						fail("probe|"+strings.ToLower(pc)+"|count-disagrees", fmt.Sprintf("%s announces %q but STAT counts %d unmarked messages", pc, strings.TrimSpace(r.Status), n))
+					}
+					if len(r.Body) != n {
+						fail("probe|"+strings.ToLower(pc)+"|listing-disagrees", fmt.Sprintf("%s lists %d messages but %d are unmarked: %q", pc, len(r.Body), n, r.Body))
+					}
+				}
+			}
+			log = append(log, "[probe STAT/LIST/UIDL] "+strings.ReplaceAll(probe, "\r\n", "|"))
+		}
 		k.Close()
 		if !k.Ended() {
 			fail("wedge|session-does-not-end", "the client closed the connection but the session goroutine never returned")
@@ -405,7 +444,7 @@ func c13Exec(c *fw.Ctx, be string, nmsgs int, seq []int, checkAll bool) (key str
 			}
 			fail("commit|store-differs", "after "+how+" the mailbox is not 'before minus marked-at-QUIT': "+d)
 		}
-		key = fmt.Sprintf("u=%s txn=%v marked=%v ext=%v ended=%v store=%s", user, inTxn, marked, extGone, ended, mo.Key())
+		key = fmt.Sprintf("u=%s txn=%v marked=%v ext=%v ended=%v store=%s probe=%x", user, inTxn, marked, extGone, ended, mo.Key(), fnv32(probe))
 		if ended {
 			extend = false
 		}
@@ -473,4 +512,13 @@ func c13Replay(c *fw.Ctx, raw json.RawMessage) {
 
 func init() {
 	fw.Register(&fw.Body{ID: "C13", Part: "seq", Run: c13Run, ReplayCase: c13Replay})
+}
+
+func fnv32(s string) uint32 {
+	h := uint32(2166136261)
+	for i := 0; i < len(s); i++ {
+		h ^= uint32(s[i])
+		h *= 16777619
+	}
+	return h
 }
